@@ -12,6 +12,7 @@ import (
 	"sort"
 	"strconv"
 	"strings"
+	"sync/atomic"
 )
 
 // Input is one recorded sym.* call with its model value(s).
@@ -28,6 +29,7 @@ type Replay struct {
 	Known     map[string]bool // ids listed in known_findings.json
 	FindingID string
 	Thorough  bool
+	Free      bool // ignore the recorded schedule: goroutines run freely (race-detector confirmation)
 	pos       int
 	Observes  []string
 	Covers    []string
@@ -42,7 +44,7 @@ type Mismatch struct{ Msg string }
 var cur *Replay
 
 // Begin installs a replay record (native runs only).
-func Begin(r *Replay) { cur = r }
+func Begin(r *Replay) { cur = r; atomic.StoreInt64(&stamp, 0); beginSched(r) }
 
 func next(kind, name string) Input {
 	if cur == nil {
@@ -206,17 +208,12 @@ func Observe(label string, v interface{}) {
 // DeepEqual is structural equality (one solver term under the engine).
 func DeepEqual(a, b interface{}) bool { return reflect.DeepEqual(a, b) }
 
-// Go starts f as a goroutine under the engine's scheduler.
-func Go(f func()) {
-	wg.Add(1)
-	go func() { defer wg.Done(); f() }()
-}
+// Stamp returns the next value of a global logical clock (1, 2, ...): it
+// orders events of different goroutines without being shared memory (no
+// scheduling point, no monitored cell under the engine).
+func Stamp() int { return int(atomic.AddInt64(&stamp, 1)) }
 
-// Wait waits for all goroutines started with Go.
-func Wait() { wg.Wait() }
-
-// Yield is an explicit scheduling point.
-func Yield() {}
+var stamp int64
 
 // Render is the canonical text of a value (must agree with the engine's render).
 func Render(v interface{}) string {
